@@ -232,7 +232,7 @@ func DialRTSPWebSocket(addr, path, token string) (*RTSPClient, *http.Response, e
 		u += "?token=" + token
 	}
 	d := websocket.Dialer{Subprotocols: []string{"rtsp"}, HandshakeTimeout: 60 * time.Second}
-	ws, resp, err := d.Dial(u, nil)
+	ws, resp, err := d.Dial(u, ExtraHTTPHeader)
 	if err != nil {
 		return nil, resp, err
 	}
